@@ -80,7 +80,8 @@ CLAIMED["C18"] = {
     "text": "Theorems over ALL bit patterns, with the exponent window and the two biases extracted from src/qty.rs at every run: freq2hash is strictly increasing on "
             "the accepted interval, lands inside [0, n_cells_max), rejects everything outside (never wraps), hash2freq∘freq2hash = id bit-for-bit (64-bit), weak "
             "monotonicity on u16/u32; an F-MOC / T-MOC built from values contains exactly the depth-d cells of those values for every order, capacity and width "
-            "(corollary of the C06 builder theorem); widening round trip. Correspondence on every binary exponent and the special values, exchanged as bit patterns.",
+            "(corollary of the C06 builder theorem); widening round trip; hash2freq is the same affine map read backwards and the hertz range of the depth-d cell of an accepted value "
+            "ENCLOSES the value (hz_range_encloses). Correspondence on every binary exponent and the special values, exchanged as bit patterns.",
     "design_ref": "DESIGN.md §4 C18, §10",
     "note": TB + "; IEEE-754 order-embedding of non-negative doubles into their bit patterns",
     "technique": "Lean 4 proof on bit patterns (constants regenerated from the source) + differential correspondence",
@@ -149,7 +150,7 @@ CLAIMED["C17"] = {
 CLAIMED["C19"] = {
     "text": "Model of what `moc op` builds (two FITS streams, ConvertIterator on the narrower operand, the lazy operator, the writer). Theorems: for EVERY pair of canonical inputs of any two index "
             "widths and every consistent hint behaviour of the streams, the stream handed to the writer is canonical, has consistent hints and covers exactly the set-theoretic result "
-            "(cli_op2_sem); expressed in the common 64-bit index space the result depends only on the two input sets, not on the stored widths (cli_op2_width_independent); complement and degrade; "
+            "(cli_op2_sem) and is a VALID MOC of the wider index type at the maximum of the depths (cli_op2_valid, with promotion_table for the 16 / 32 / 64-bit widths); expressed in the common 64-bit index space the result depends only on the two input sets, not on the stored widths (cli_op2_width_independent); complement and degrade; "
             "convert and `from timestamp` rest on the re-exported C07 / C18 theorems. Tied to the code by driving the rebuilt `moc` binary: all width pairs x operations x output formats, all convert "
             "pairs, `from` on timestamps / time ranges / positions, and invalid inputs (exit status + message, never exit 101). Two defects repaired (todo!() panics; out-of-range depth panics), two "
             "recorded as open findings (truncated FITS data accepted silently; unparsable `from` lines skipped silently). Partial: geometry sub-commands, filter/view/info and ST variants are not driven.",
